@@ -15,12 +15,26 @@ func (w *c15World) collector(site c15LoopSite, eff []ast.Node, ords []c15Ord) (t
 	if len(eff) == 0 {
 		return nil, nil, "nothing is done with the update"
 	}
-	if len(eff) != 1 {
-		return nil, nil, "more than one effect (`" + src(P.Fset, eff[0]) + "`, `" + src(P.Fset, eff[1]) + "`)"
+	// besides the append there may be "allocate on first use" statements: `X = <empty list>` under a test that X is
+	// still empty (checked below, once X is known)
+	var lazy []*ast.AssignStmt
+	var rest []ast.Node
+	for _, n := range eff {
+		if x, ok := n.(*ast.AssignStmt); ok && x.Tok == token.ASSIGN && len(x.Lhs) == 1 && len(x.Rhs) == 1 && w.emptyList(x.Rhs[0]) {
+			lazy = append(lazy, x)
+			continue
+		}
+		rest = append(rest, n)
 	}
-	as, ok := eff[0].(*ast.AssignStmt)
+	if len(rest) != 1 {
+		if len(rest) == 0 {
+			return nil, nil, "nothing is appended"
+		}
+		return nil, nil, "more than one effect (`" + src(P.Fset, rest[0]) + "`, `" + src(P.Fset, rest[1]) + "`)"
+	}
+	as, ok := rest[0].(*ast.AssignStmt)
 	if !ok || len(as.Lhs) != 1 || len(as.Rhs) != 1 || as.Tok != token.ASSIGN {
-		return nil, nil, "`" + src(P.Fset, eff[0]) + "` is not `X = append(X, u)`"
+		return nil, nil, "`" + src(P.Fset, rest[0]) + "` is not `X = append(X, u)`"
 	}
 	call, ok := ast.Unparen(as.Rhs[0]).(*ast.CallExpr)
 	if !ok || builtinName(w.info, call) != "append" || len(call.Args) != 2 || call.Ellipsis.IsValid() {
@@ -37,6 +51,11 @@ func (w *c15World) collector(site c15LoopSite, eff []ast.Node, ords []c15Ord) (t
 	if lp.root.Parent() == nil || !c15Within(site.loop.fn.fi.Decl, c15PosNode(lp.root.Pos())) {
 		return nil, nil, "`" + src(P.Fset, as) + "` appends to a variable that is not local to " + site.loop.fn.name()
 	}
+	for _, lz := range lazy {
+		if objOf(w.info, lz.Lhs[0]) != lp.root || !w.knownEmptyAt(site.loop.fn, lz.Pos(), lp.root) {
+			return nil, nil, "`" + src(P.Fset, lz) + "` is a second effect: it is not the allocation of the same list under a test that the list is still empty"
+		}
+	}
 	for _, ord := range ords {
 		o := &c15Oracle{w: w, loop: site.loop, lenv: site.env, ord: ord}
 		wk := w.walk(site.loop.entry, 0, c15WalkOpt{env: site.env, loop: site.loop, oracle: o, barrier: func(n ast.Node) bool { return n == ast.Node(as) }})
@@ -52,29 +71,66 @@ type c15PosNode token.Pos
 func (p c15PosNode) Pos() token.Pos { return token.Pos(p) }
 func (p c15PosNode) End() token.Pos { return token.Pos(p) }
 
-// otherAssigns: besides node, P is only ever given an empty value (declaration without value, nil, make(T, 0, …),
-// an empty composite literal) and its address is never taken. Returns "" or the offending source.
-func (w *c15World) otherAssigns(f *c15Fn, P types.Object, node ast.Node) string {
-	bad := ""
-	empty := func(e ast.Expr) bool {
-		e = ast.Unparen(e)
-		if isNilIdent(e) {
-			return true
-		}
-		switch x := e.(type) {
-		case *ast.CompositeLit:
-			return len(x.Elts) == 0
-		case *ast.CallExpr:
-			if tv, ok := w.info.Types[x.Fun]; ok && tv.IsType() && len(x.Args) == 1 {
-				return isNilIdent(ast.Unparen(x.Args[0]))
-			}
-			if builtinName(w.info, x) == "make" && len(x.Args) >= 2 {
-				k, ok := constInt(w.info, x.Args[1])
-				return ok && k == 0
-			}
-		}
-		return false
+// emptyList: e evaluates to an empty list: nil, T(nil), make(T, 0, …), an empty composite literal.
+func (w *c15World) emptyList(e ast.Expr) bool {
+	e = ast.Unparen(e)
+	if isNilIdent(e) {
+		return true
 	}
+	switch x := e.(type) {
+	case *ast.CompositeLit:
+		return len(x.Elts) == 0
+	case *ast.CallExpr:
+		if tv, ok := w.info.Types[x.Fun]; ok && tv.IsType() && len(x.Args) == 1 {
+			return isNilIdent(ast.Unparen(x.Args[0]))
+		}
+		if builtinName(w.info, x) == "make" && len(x.Args) >= 2 {
+			k, ok := constInt(w.info, x.Args[1])
+			return ok && k == 0
+		}
+	}
+	return false
+}
+
+// knownEmptyAt: a controlling test at pos in f establishes that list variable P is empty (`P == nil`, `len(P) == 0`,
+// `len(P) < 1`, `!(len(P) > 0)` …): giving P an empty value there loses nothing ("allocate on first use").
+func (w *c15World) knownEmptyAt(f *c15Fn, pos token.Pos, P types.Object) bool {
+	isP := func(e ast.Expr) bool { return e != nil && objOf(w.info, ast.Unparen(e)) == P }
+	for _, gf := range factsAtPos(w.info, f.g, f.dom, pos) {
+		l, op, r, ok := cmpNorm(gf.expr)
+		if !ok {
+			continue
+		}
+		zero := func(e ast.Expr, k int64) bool { v, ok := constInt(w.info, e); return ok && v == k }
+		switch {
+		case (op == token.EQL && gf.val) || (op == token.NEQ && !gf.val):
+			if (isP(l) && isNilIdent(r)) || (isP(r) && isNilIdent(l)) ||
+				(isP(lenCallArg(w.info, l)) && zero(r, 0)) || (isP(lenCallArg(w.info, r)) && zero(l, 0)) {
+				return true
+			}
+		case op == token.LSS && gf.val: // len(P) < 1
+			if isP(lenCallArg(w.info, l)) && zero(r, 1) {
+				return true
+			}
+		case op == token.LSS && !gf.val: // !(0 < len(P))
+			if isP(lenCallArg(w.info, r)) && zero(l, 0) {
+				return true
+			}
+		case op == token.LEQ && gf.val: // len(P) <= 0
+			if isP(lenCallArg(w.info, l)) && zero(r, 0) {
+				return true
+			}
+		}
+	}
+	return false
+}
+
+// otherAssigns: besides node, P is only ever given an empty value (declaration without value, nil, make(T, 0, …),
+// an empty composite literal) — before the scan loop, or at a point where P is known to be still empty (lazy
+// allocation on first use) — and its address is never taken. Returns "" or the offending source.
+func (w *c15World) otherAssigns(f *c15Fn, P types.Object, node ast.Node, scan *c15Loop) string {
+	bad := ""
+	empty := w.emptyList
 	ast.Inspect(f.fi.Decl.Body, func(n ast.Node) bool {
 		if bad != "" {
 			return false
@@ -90,6 +146,8 @@ func (w *c15World) otherAssigns(f *c15Fn, P types.Object, node ast.Node) string 
 				}
 				if len(x.Lhs) != len(x.Rhs) || !empty(x.Rhs[i]) {
 					bad = src(w.r.P.Fset, x)
+				} else if scan != nil && x.Pos() > scan.pos() && !w.knownEmptyAt(f, x.Pos(), P) {
+					bad = src(w.r.P.Fset, x) + " (resets the list after the scan has started, not under a test that the list is still empty)"
 				}
 			}
 		case *ast.ValueSpec:
